@@ -46,15 +46,54 @@ def Outcome.good : Outcome → Prop
   | .error _ _ => True
   | .hostPanic => False
 
+theorem linecol_nonstrict_ne_none (text : List Nat) (pos : Nat) (h : pos ≤ text.length) :
+    linecol false text pos ≠ none := by
+  unfold linecol
+  simp [h]
+
+/-- with the non-strict assertion, building an error's source position never panics: for every
+code map (any text, any table), every pc -/
+theorem locate_ne_none (hlc : linecolAssertStrict = false) (m : Machine) (pc : Nat) : locate m pc ≠ none := by
+  unfold locate locateWith
+  rw [hlc]
+  cases hc : m.codemap with
+  | none => simp
+  | some cm =>
+    simp only
+    cases hl : lastLE pc cm.mapping with
+    | none => simp
+    | some se =>
+      obtain ⟨st, en⟩ := se
+      simp only
+      by_cases hb : st ≤ en ∧ en ≤ cm.text.length
+      · simp only [hb, and_self, if_true]
+        cases hx : linecol false cm.text st with
+        | none => exact absurd hx (linecol_nonstrict_ne_none cm.text st (by omega))
+        | some lc => simp
+      · simp [hb]
+
+/-- … and after the fix `SpannedText::linecol` asserts `pos <= len`. -/
+theorem linecol_fixed : linecolAssertStrict = false := rfl
+
+/-- a span starting at the end of the text (e.g. the empty span of an empty text) made the strict
+assertion fire while the VM was building a `MachineError` -/
+theorem locate_panics_before_fix :
+    locateWith true { progmem := [], globals := [], structDefs := [], factDefs := [],
+                      codemap := some ⟨[], [(0, 0, 0)]⟩ } 0 = none := by
+  decide
+
 /-- `step_spec` for any source tree in which the two arms are panic-free -/
 theorem step_spec_of (hnl : nextLastTodo = false) (hcap : mstructSetCapUnbounded = false)
+    (hlc : linecolAssertStrict = false)
     (m : Machine) (s : RunState) (io : List IoRes) (hm : WFm m) (hs : WFs s) :
     (step m s io).good := by
-  have hs1 : WFs { s with io := io } := ⟨hs.stack, hs.calls⟩
+  have hs1 : WFs { s with io := io, errNoPos := false } := ⟨hs.stack, hs.calls⟩
   unfold step
   simp only
   split
-  · trivial
+  · cases hl : locate m s.pc with
+    | none => exact absurd hl (locate_ne_none hlc m s.pc)
+    | some _ => trivial
   · next hge =>
     have hlt : s.pc < m.progmem.length := by simpa using hge
     have hpc : s.pc < usizeMax := by
@@ -64,9 +103,15 @@ theorem step_spec_of (hnl : nextLastTodo = false) (hcap : mstructSetCapUnbounded
     simp only
     have hfit := hm.fit _ (List.getElem_mem hlt)
     have hsafe := exec_safe m s.pc hpc hnl hcap _ hfit _ hs1
-    cases hx : exec m s.pc m.progmem[s.pc] { s with io := io } with
+    cases hx : exec m s.pc m.progmem[s.pc] { s with io := io, errNoPos := false } with
     | panic => rw [hx] at hsafe; exact hsafe.elim
-    | err e s' => trivial
+    | err e s' =>
+      simp only
+      split
+      · trivial
+      · cases hl : locate m s'.pc with
+        | none => exact absurd hl (locate_ne_none hlc m s'.pc)
+        | some _ => trivial
     | ok ctl s' =>
       rw [hx] at hsafe
       obtain ⟨hw, hq⟩ := hsafe
@@ -92,7 +137,7 @@ theorem step_spec_of (hnl : nextLastTodo = false) (hcap : mstructSetCapUnbounded
 /-- One step from a well-formed state on the current tree. -/
 theorem step_spec (m : Machine) (s : RunState) (io : List IoRes) (hm : WFm m) (hs : WFs s) :
     (step m s io).good :=
-  step_spec_of nextLast_fixed mstructSet_fixed m s io hm hs
+  step_spec_of nextLast_fixed mstructSet_fixed linecol_fixed m s io hm hs
 
 /-- **C25**: `step` never panics the host — any machine, state, instruction and I/O answers. -/
 theorem step_total_no_panic (m : Machine) (s : RunState) (io : List IoRes) (hm : WFm m) (hs : WFs s) :
@@ -123,7 +168,11 @@ theorem run_outcomes (m : Machine) (env : Nat → List IoRes) (hm : WFm m) (fuel
     cases hx : step m s (env k) with
     | executing s' => rw [hx] at hsp; exact ih (k + 1) s' hsp
     | exited r s' => rw [hx] at hsp; exact Or.inl ⟨r, s', rfl, hsp⟩
-    | error e s' => exact Or.inr (Or.inl ⟨e, s', rfl⟩)
+    | error e s' =>
+      simp only
+      cases hl : locate m s'.pc with
+      | none => exact absurd hl (locate_ne_none linecol_fixed m s'.pc)
+      | some _ => exact Or.inr (Or.inl ⟨e, s', rfl⟩)
     | hostPanic => rw [hx] at hsp; exact hsp.elim
 
 theorem run_no_panic (m : Machine) (env : Nat → List IoRes) (hm : WFm m) (fuel k : Nat) (s : RunState)
@@ -155,11 +204,18 @@ theorem call_outcomes (m : Machine) (env : Nat → List IoRes) (hm : WFm m) (fue
     (s : RunState) (hs : WFs s) :
     (∃ r s', call m env fuel e s = .exit r s' ∧ WFs s') ∨ (∃ er s', call m env fuel e s = .machineError er s') ∨
     (∃ s', call m env fuel e s = .outOfFuel s' ∧ WFs s') := by
-  have h := enter_safe m e s hs
+  have hs0 : WFs { s with errNoPos := false } := ⟨hs.stack, hs.calls⟩
+  have h := enter_safe m e _ hs0
   unfold call
-  cases hx : enter m e s with
+  cases hx : enter m e { s with errNoPos := false } with
   | ok a s' => rw [hx] at h; exact run_outcomes m env hm fuel 0 s' h.1
-  | err er s' => exact Or.inr (Or.inl ⟨er, s', rfl⟩)
+  | err er s' =>
+    simp only
+    split
+    · exact Or.inr (Or.inl ⟨er, s', rfl⟩)
+    · cases hl : locate m s'.pc with
+      | none => exact absurd hl (locate_ne_none linecol_fixed m s'.pc)
+      | some _ => exact Or.inr (Or.inl ⟨er, s', rfl⟩)
   | panic => rw [hx] at h; exact h.elim
 
 theorem call_no_panic (m : Machine) (env : Nat → List IoRes) (hm : WFm m) (fuel : Nat) (e : Entry)
@@ -217,7 +273,7 @@ example : WFs { pc := 7, stack := List.replicate stackSize Value.unit, callState
 example : step { progmem := [.Next], globals := [], structDefs := [], factDefs := [] }
       (RunState.init (.action 0)) [] =
     .error .invalidInstruction (RunState.init (.action 0)) := by
-  simp [step, RunState.init, exec, execNextLast, execNextLastWith, nextLast_fixed, throw]
+  simp [step, RunState.init, exec, execNextLast, execNextLastWith, nextLast_fixed, throw, locate, locateWith]
 
 /-- non-vacuity of the entry-call theorems: a well-typed action call on `demoMachine` enters;
 an ill-typed one, a wrong-arity one and an unknown name are machine errors -/
